@@ -156,6 +156,12 @@ def step (s : GwS) (t : List String) : GwS × StepOut :=
         match parseAddr new, parseAuth auth with
         | some n, some au => finish s (transferOperatorship st (au.toList [st.operator]) n)
         | _, _ => bad s op
+      | "gw.upgrade_migrate", [auth] =>
+        -- upgrade to the same code + migration of the current tree: owner only, and the identity on everything modelled
+        if auth = "@" then (s, ⟨"ok", "ok"⟩) else
+        match parseAuth auth with
+        | some au => if st.owner ∈ au.toList [st.owner] then (s, ⟨"ok", "ok"⟩) else (s, ⟨"err", "unauthorized"⟩)
+        | none => bad s op
       | "gw.epoch", [] => (s, ⟨"ok U" ++ toString st.epoch, "ok"⟩)
       | "gw.owner", [] => (s, ⟨"ok " ++ addrTok st.owner, "ok"⟩)
       | "gw.operator", [] => (s, ⟨"ok " ++ addrTok st.operator, "ok"⟩)
